@@ -21,7 +21,7 @@ from families import common
 
 SOURCES = ["drv_merror.c", "vt.c", "vt_alloc.c", "etermsim.c"]
 EXIT_TIMEOUT = 94
-FIELDS = ["ty", "r", "c", "sn", "st", "grid", "kind", "vec", "ud"]
+FIELDS = ["ty", "r", "c", "sn", "st", "grid", "kind", "vec", "ud", "sh"]
 
 TYPES = ["T8", "U8", "TE10", "UE10", "T16", "U16", "UE14", "E12"]
 # rate classes: one per type + the unevenly determined column scenarios
@@ -55,9 +55,10 @@ def table(ctx):
 
 
 def row_line(row):
-    return "%d %s %d %d %d %d %s %s %s %s\n" % (
+    return "%d %s %d %d %d %d %s %s %s %s %s\n" % (
         row["id"], row["ty"], row["r"], row["c"], row["sn"], row["st"],
-        row["grid"], row["kind"], row["vec"], row.get("ud", "-"))
+        row["grid"], row["kind"], row["vec"], row.get("ud", "-"),
+        row.get("sh", "const"))
 
 
 def _stratified(rng, rows, keyfn, n):
@@ -91,7 +92,7 @@ def sample(rows, tier, seed):
     kind = lambda k: [r for r in rows if r["kind"] == k]
     out = _stratified(rng, kind("exact"),
                       lambda r: (r["ty"], r["r"], r["c"], r["grid"],
-                                 r["st"] == 0, r["ud"]), n_exact)
+                                 r["st"] == 0, r["ud"], r["sh"]), n_exact)
     out += _stratified(rng, kind("iacc") + kind("irej"),
                        lambda r: (r["ty"], r["kind"], r["grid"], r["vec"],
                                   r["r"], r["c"]), n_interp)
@@ -102,6 +103,9 @@ def sample(rows, tier, seed):
                        lambda r: (r["ty"], r["kind"], r["vec"], r["grid"],
                                   r["r"], r["c"]),
                        240 if quick else 2500)
+    out += _stratified(rng, kind("agree"),
+                       lambda r: (r["ty"], r["grid"], r["sh"], r["r"],
+                                  r["c"]), 240 if quick else 2500)
     out += _stratified(rng, kind("det"),
                        lambda r: (r["ty"], r["grid"], r["st"] == 0),
                        64 if quick else 600)
@@ -110,9 +114,11 @@ def sample(rows, tier, seed):
         rn = [r for r in rows if r["kind"] == "noisy" and rate_class(r) == cl]
         ro = [r for r in rows if r["kind"] == "outlier" and rate_class(r) == cl]
         out += _stratified(rng, rn, lambda r: (r["r"], r["c"], r["st"],
-                                               r["grid"], r["ud"]), n_noisy)
+                                               r["grid"], r["ud"], r["sh"]),
+                           n_noisy)
         out += _stratified(rng, ro, lambda r: (r["r"], r["c"], r["st"],
-                                               r["grid"], r["ud"]), n_out)
+                                               r["grid"], r["ud"], r["sh"]),
+                           n_out)
         # a class cannot run more scenarios than the table has rows for it
         plan[cl] = (min(n_noisy, len(rn)), min(n_out, len(ro)))
     rng.shuffle(out)
@@ -134,11 +140,12 @@ def _cfg_of(lines):
 
 
 def _cls(cfg):
-    return "%s:%sx%s:%s:%s:%s:%s%s" % (
+    return "%s:%sx%s:%s:%s:%s:%s%s%s" % (
         cfg.get("ty"), cfg.get("r"), cfg.get("c"), cfg.get("grid"),
         cfg.get("kind"), cfg.get("vec"),
         "tr0" if cfg.get("st") == 0 else "tr",
-        "" if cfg.get("ud", "-") == "-" else ":" + cfg.get("ud"))
+        "" if cfg.get("ud", "-") == "-" else ":" + cfg.get("ud"),
+        "" if cfg.get("sh", "const") == "const" else ":" + cfg.get("sh"))
 
 
 def issues_from_validation(ctx, res, label):
